@@ -83,6 +83,7 @@ def harness_for(cfg):
 
     def h(E):
         ctr = [0]
+        stranger = Res()
         oracle = []        # (resource, start, end, width, path) in ROOT coordinates, filled bottom-up
 
         def build(spec):
@@ -90,6 +91,23 @@ def harness_for(cfg):
             mm = MemoryMap(addr_width=spec["aw"], data_width=spec["dw"], alignment=spec["al"])
             local = []
             top = 1 << spec["aw"]
+
+            def poke():
+                # lookups interleaved with construction (queries are part of the history): every resource
+                # added so far is found at its composed range, a stranger is not
+                for r, s, e, w, path in local:
+                    try:
+                        f = mm.find_resource(r)
+                    except KeyError:
+                        E.prove(False, "find_resource does not find a resource that was added")
+                        continue
+                    E.prove(b_and(f.start == s, f.end == e, f.width == w), "find_resource during construction")
+                try:
+                    mm.find_resource(stranger)
+                    E.prove(False, "find_resource found an object that was never added")
+                except KeyError:
+                    pass
+            poke()
             for it in spec["items"]:
                 ctr[0] += 1
                 n = ctr[0]
@@ -102,6 +120,7 @@ def harness_for(cfg):
                     except ValueError:
                         raise PathAbort()
                     local.append((r, s, e, spec["dw"], ((f"r{n}",),)))
+                    poke()
                 else:
                     child, sub = build(it["child"])
                     base = E.int(f"b{n}", 0, top) if it["mode"] == "sym" else None
@@ -115,6 +134,7 @@ def harness_for(cfg):
                     for r, s, e, w, path in sub:
                         local.append((r, ws + s // exp_ratio, ws + e // exp_ratio, w * exp_ratio,
                                       ((name,) if name else ()) + path))
+                    poke()
             return mm, local
 
         root, oracle = build(shape)
@@ -132,9 +152,12 @@ def harness_for(cfg):
             E.prove(tuple(tuple(n) for n in info.path) == p, "reported path = window names ++ resource name")
             E.prove(info.start >= prev_end, "ascending address order")
             prev_end = info.end
-            f = root.find_resource(info.resource)
-            E.prove(b_and(f.start == s, f.end == e, f.width == w), "find_resource agrees with all_resources")
-            E.prove(tuple(tuple(n) for n in f.path) == p, "find_resource path")
+            try:
+                f = root.find_resource(info.resource)
+                E.prove(b_and(f.start == s, f.end == e, f.width == w), "find_resource agrees with all_resources")
+                E.prove(tuple(tuple(n) for n in f.path) == p, "find_resource path")
+            except KeyError:
+                E.prove(False, "find_resource does not find a resource that was added")
             E.observe(info.start, info.end, info.width)
         try:
             root.find_resource(Res())
